@@ -228,7 +228,12 @@ func (m *MainLoop) sendUpdateMessageNonBlocking(ctx context.Context, blockWithPr
 }
 
 // Used by orbs-network-go
-func GetMemberIdsFromBlockProof(blockProofBytes []byte) ([]primitives.MemberId, error) {
+func GetMemberIdsFromBlockProof(blockProofBytes []byte) (memberIds []primitives.MemberId, err error) {
+	defer func() {
+		if r := recover(); r != nil { // size fields pointing outside the buffer make the wire-format reader panic
+			memberIds, err = nil, errors.Errorf("GetMemberIdsFromBlockProof: malformed blockProof: %v", r)
+		}
+	}()
 	if blockProofBytes == nil || len(blockProofBytes) == 0 {
 		return nil, errors.Errorf("GetMemberIdsFromBlockProof: nil blockProof - cannot deduce members locally")
 	}
